@@ -576,6 +576,7 @@ pub fn tuple_universe(full: bool) -> Vec<SpecTuple> {
         vec![("checksum", "a:00,b:ff0a"), ("k", "x?y")],
         vec![("checksum", "sha1:ab,é:")],
         vec![("checksum", "md:00,md5:11"), ("k_", "v"), ("kz", "w")],
+        vec![("checksum", "a&b#c:00,x%41:ff")],
     ];
     let subpaths: Vec<Vec<String>> = vec![sv(&[]), sv(&["s"]), sv(&["a b", "é#"]), sv(&[".x", "@"])];
     let types: Vec<(&str, bool)> = vec![("t", false), ("x.y+z-1", false), ("cargo", true), ("gem", true), ("golang", true), ("maven", true), ("npm", true), ("nuget", true), ("pypi", true)];
